@@ -19,6 +19,7 @@ func casResult(ok bool)         {}
 func condWaited()               {}
 func ledger(d int64)            {}
 func polling() bool             { return false }
+func spinTick()                 {}
 func waitSpin(k Kind)           { runtime.Gosched() }
 func virtualNow() (int64, bool) { return 0, false }
 
